@@ -15,7 +15,8 @@ import os
 from . import core
 from .core import cq_bool, cq_list, cq_nat, cq_Z
 
-THEOREMS = ["C20_fresh", "C20_invariant", "C20_fresh_refuted", "C20_legal_example"]
+THEOREMS = ["C20_fresh", "C20_fresh_operator", "C20_invariant", "C20_fresh_refuted", "C20_delete_refuted",
+            "C20_equal_mtime_refuted", "C20_legal_example"]
 KNOWN_TAG = "library_folders-change-not-invalidating"
 
 # must agree with vlib/impl/c20.py FILES
@@ -179,6 +180,21 @@ def probe(repo):
             and "model = _compile_model(model_folder, model_name, compiler_options)" in hsrc
             and "save_model(model_folder, model_name, model, compiler_options)" in hsrc and "return model" in hsrc):
         raise ProbeError("transfer_model: recompile handler changed")
+    # --- codegen: library_os check in load_model, routing on isinstance(db[o], str), and save_model's order
+    #     (cache file removed, libraries written, cache file written; library_os stored)
+    los = [n for n in ast.walk(lm) if isinstance(n, ast.If) and ast.unparse(n.test) == "compiler_options['codegen']"
+           and len(n.body) == 1 and isinstance(n.body[0], ast.If)
+           and ast.unparse(n.body[0].test) in ("db['library_os'] != os.name", "os.name != db['library_os']")
+           and _raises_invalid(n.body[0].body) and not n.orelse and not n.body[0].orelse]
+    if len(los) != 1:
+        raise ProbeError("load_model: library_os check changed")
+    pos["library_os"] = los[0].lineno
+    lm_src = ast.unparse(lm)
+    if "if isinstance(db[o], str):\n" not in lm_src or "f = ca.external(o, db[o])" not in lm_src:
+        raise ProbeError("load_model: shared-library routing changed")
+    i1, i2, i3 = sm_src.find("os.remove(db_file)"), sm_src.find("_codegen_model(model_folder, f,"), sm_src.find("with open(db_file, 'wb')")
+    if not (0 <= i1 < i2 < i3) or "db['library_os'] = os.name" not in sm_src or "if compiler_options['codegen']:\n        with contextlib.suppress(FileNotFoundError):\n            os.remove(db_file)" not in sm_src:
+        raise ProbeError("save_model: codegen order (remove cache file, write libraries, write cache file) changed")
     return {"op": op, "excl": excl, "vcheck": vcheck, "keys": keys, "defaults": defaults, "lines": pos}
 
 
@@ -256,6 +272,8 @@ def gen_history(rng, maxops, stream):
             files0.append([fo, fi, clock - rng.randint(0, 50), fresh()])
             present.add((fo, fi))
     opts = {"cache": True, "library_folders": libs0}
+    if stream == "codegen":
+        opts = {"codegen": True, "library_folders": libs0}
     if rng.random() < 0.3:
         opts[rng.choice(TOGGLES)] = True
     opts0 = dict(opts)
@@ -266,6 +284,26 @@ def gen_history(rng, maxops, stream):
     while len(ops) < n:
         x = rng.random()
         last_transfer = bool(ops) and ops[-1][0] == "transfer"
+        if ops and stream in ("core", "delete", "codegen") and rng.random() < (0.22 if stream == "delete" else 0.05):
+            # deletion / rename (rename keeps the mtime).  'core': only outside the folders in use (covered by the
+            # theorem); 'delete': anywhere (outside the property's letter, observed)
+            cur_libs = opts.get("library_folders", [])
+            used = lambda fo: fo == 0 or fo in cur_libs
+            pool = [p for p in sorted(present) if p != (0, 0) and (stream == "delete" or not used(p[0]))]
+            if pool:
+                src = rng.choice(pool)
+                if rng.random() < 0.5:
+                    ops.append(["delete", src[0], src[1]])
+                    present.discard(src)
+                else:
+                    tg = [(fo, fi) for fo in FILE_IDS for fi in FILE_IDS[fo]
+                          if (fo, fi) != src and (fo, fi) != (0, 0) and (stream == "delete" or not used(fo))]
+                    if tg:
+                        dst = rng.choice(tg)
+                        ops.append(["rename", src[0], src[1], dst[0], dst[1]])
+                        present.discard(src)
+                        present.add(dst)
+                continue
         if not ops or (x < 0.42) or (not last_transfer and x < 0.6):
             y = rng.random()
             fm = max([f[2] for f in files0] + [o[3] for o in ops if o[0] in ("edit", "add")])
@@ -301,7 +339,10 @@ def gen_history(rng, maxops, stream):
             ops.append(["edit" if (fo, fi) in present else "add", fo, fi, m, c])
             present.add((fo, fi))
             continue
-        if x < 0.82:
+        if x < 0.80:
+            ops.append(["os", rng.choice([0, 0, 1, 2])])
+            continue
+        if x < 0.83:
             ops.append(["noise", rng.choice([0, 1, 2]), rng.choice(["notes.txt", "Main.mo.bak", "mo"]), hi + rng.randint(1, 4)])
             continue
         if x < 0.90:
@@ -354,6 +395,22 @@ def directed(tab):
                       ["opts", {"cache": False, "library_folders": [1]}], ["transfer", 1004], ["opts", o], ["transfer", 1005]]})
     H.append({"stream": "optout", "ops": [["transfer", 1001], ["opts", dict(o, mtime_check=False)], ["transfer", 1002],
                                           ["edit", 0, 0, 1003, 4], ["transfer", 1004], ["opts", o], ["transfer", 1005]]})
+    # platform change: pickled caches are portable, code-generated ones are not
+    H.append({"ops": [["transfer", 1001], ["os", 1], ["transfer", 1002], ["os", 0], ["transfer", 1003]]})
+    cg = {"codegen": True, "library_folders": [1]}
+    H.append({"stream": "codegen", "opts0": cg,
+              "ops": [["transfer", 1001], ["transfer", 1002], ["edit", 0, 0, 1003, 4], ["transfer", 1004], ["transfer", 1005],
+                      ["os", 1], ["transfer", 1006], ["transfer", 1007], ["ver", 2], ["transfer", 1008]]})
+    H.append({"stream": "codegen", "opts0": cg,
+              "ops": [["transfer", 1001], ["opts", o], ["transfer", 1002], ["edit", 1, 0, 1003, 4], ["opts", cg], ["transfer", 1004],
+                      ["opts", dict(cg, cache=True)], ["transfer", 1005], ["opts", dict(cg, expand_vectors=True)], ["transfer", 1006]]})
+    # deletion / rename outside the folders in use (covered), and in use (outside the property's letter: observed)
+    H.append({"ops": [["transfer", 1001], ["delete", 2, 0], ["transfer", 1002], ["rename", 1, 0, 0, 1], ["transfer", 1003]], "stream": "delete",
+              "files0": f})
+    H.append({"ops": [["transfer", 1001], ["delete", 2, 0], ["transfer", 1002]]})
+    H.append({"files0": f + [[2, 1, 990, 7]], "ops": [["transfer", 1001], ["rename", 2, 1, 2, 0], ["transfer", 1002]]})
+    H.append({"stream": "delete", "ops": [["transfer", 1001], ["delete", 1, 0], ["transfer", 1002]]})
+    H.append({"stream": "delete", "ops": [["transfer", 1001], ["rename", 2, 0, 0, 1], ["transfer", 1002]]})
     # the known finding and its neighbours
     H.append({"stream": "lib", "ops": [["transfer", 1001], ["opts", dict(o, library_folders=[2])], ["transfer", 1002]]})
     H.append({"stream": "lib", "ops": [["transfer", 1001], ["edit", 2, 0, 1002, 4], ["opts", dict(o, library_folders=[2])], ["transfer", 1003]]})
@@ -402,6 +459,16 @@ def judge(tab, case, res):
             ver = op[1]
         elif op[0] in ("edit", "add"):
             mt[(op[1], op[2])] = op[3]
+        elif op[0] in ("delete", "rename"):
+            libs_now = list(merged(tab, opts).get("library_folders") or [])
+            touched = [op[1]] + ([op[3]] if op[0] == "rename" else [])
+            if any(fo == 0 or fo in libs_now for fo in touched):
+                # a source in use was deleted / renamed: outside the property's letter (and outside C20_fresh's
+                # hypotheses) from here on; what happens next is recorded as an observation, see observe()
+                return None
+            m = mt.pop((op[1], op[2]), None)
+            if op[0] == "rename" and m is not None:
+                mt[(op[3], op[4])] = m
         if op[0] != "transfer":
             continue
         c = res["calls"][j]
@@ -410,6 +477,9 @@ def judge(tab, case, res):
         was = saved
         if c.get("saved"):
             saved = (libs, _nonlib(tab, opts), ver, op[1])
+        if c["from_cache"] and c.get("cache_foreign") and merged(tab, opts).get("codegen"):
+            return ("library-for-other-platform-loaded", "call %d loaded the code-generated libraries of a cache file "
+                    "written on another platform (library_os)" % j, i)
         if not merged(tab, opts).get("mtime_check"):
             continue            # opt-out: outside the claim
         if c["exc"] == c["ref_exc"] and c["fp"] == c["ref_fp"]:
@@ -430,6 +500,26 @@ def judge(tab, case, res):
                 "call %d returned a model that differs from a fresh compile of the current sources/options/version "
                 "(from_cache=%s): got %s, fresh %s" % (j, c["from_cache"], _short(c["fp"]), _short(c["ref_fp"])), i)
     return None
+
+
+def observe(tab, case, res):
+    """Observation (not a verdict): calls made after a source in use was deleted or renamed that returned a
+    model different from a fresh compile.  Returns the number of such calls."""
+    if "calls" not in res:
+        return 0
+    opts, off, n, j = case["opts0"], False, 0, 0
+    for op in case["ops"]:
+        if op[0] == "opts":
+            opts = op[1]
+        elif op[0] in ("delete", "rename") and not off:
+            libs_now = list(merged(tab, opts).get("library_folders") or [])
+            off = any(fo == 0 or fo in libs_now for fo in [op[1]] + ([op[3]] if op[0] == "rename" else []))
+        elif op[0] == "transfer":
+            c = res["calls"][j]
+            j += 1
+            if off and c["from_cache"] and (c["exc"] != c["ref_exc"] or c["fp"] != c["ref_fp"]):
+                n += 1
+    return n
 
 
 def _short(fp):
@@ -487,6 +577,12 @@ def encode_case(tab, case, res, valtab):
             ops.append("SetOptions %s" % enc_opts(tab, op[1], valtab))
         elif op[0] == "ver":
             ops.append("SetVersion %s" % cq_nat(op[1]))
+        elif op[0] == "delete":
+            ops.append("Delete (%s, %s)" % (cq_nat(op[1]), cq_nat(op[2])))
+        elif op[0] == "rename":
+            ops.append("Rename (%s, %s) (%s, %s)" % (cq_nat(op[1]), cq_nat(op[2]), cq_nat(op[3]), cq_nat(op[4])))
+        elif op[0] == "os":
+            ops.append("SetOS %s" % cq_nat(op[1]))
         elif op[0] == "transfer":
             ops.append("Transfer %s" % cq_Z(op[1]))
             c = res["calls"][j]
@@ -520,9 +616,9 @@ def run(ctx):
     # S3 inputs (the children run while coqc checks Props and the tie)
     cases = directed(tab)
     n_dir = len(cases)
-    n_core, n_lib, n_opt, n_noc = ctx.scaled((80, 25, 8, 8), (1800, 400, 150, 150))
+    n_core, n_lib, n_opt, n_noc, n_del, n_cg = ctx.scaled((90, 25, 8, 8, 16, 6), (1800, 400, 150, 150, 250, 40))
     maxops = ctx.scaled(8, 14)
-    for stream, k in (("core", n_core), ("lib", n_lib), ("optout", n_opt), ("nocache", n_noc)):
+    for stream, k in (("core", n_core), ("lib", n_lib), ("optout", n_opt), ("nocache", n_noc), ("delete", n_del), ("codegen", n_cg)):
         for _ in range(k):
             cases.append(gen_history(ctx.rng, maxops, stream))
     import time
@@ -537,7 +633,8 @@ def run(ctx):
     ph["props+tie|children"] = round(time.time() - t0, 1)
     ctx.notes["phase_s"] = ph
     # (a) oracle
-    dist = {"edit": 0, "add": 0, "opts": 0, "ver": 0, "transfer": 0, "noise": 0}
+    dist = {"edit": 0, "add": 0, "opts": 0, "ver": 0, "transfer": 0, "noise": 0, "delete": 0, "rename": 0, "os": 0}
+    stale_after_delete = 0
     seen = {"loaded": 0, "recompiled": 0, "raised": 0, "lib_edits_in_view": 0, "claimed_calls": 0}
     nontrivial = set()
     for c, r in zip(cases, results):
@@ -546,6 +643,7 @@ def run(ctx):
         for call in r.get("calls", []):
             seen["raised" if call["exc"] else ("loaded" if call["from_cache"] else "recompiled")] += 1
         seen["lib_edits_in_view"] += sum(1 for op in c["ops"] if op[0] in ("edit", "add") and op[1] != 0)
+        stale_after_delete += observe(tab, c, r)
         v = judge(tab, c, r)
         if v:
             tag, why, i = v
@@ -580,20 +678,26 @@ def run(ctx):
     ctx.cov["distinct_nontrivial"] = len(nontrivial)
     ctx.cov["rule"] = ("%d directed histories (one per mechanism/mutant) + seeded histories of <= %d ops over 9 source files in "
                        "the model folder and two library folders: %d with library_folders constant, %d changing it, %d toggling "
-                       "mtime_check, %d toggling cache; non-trivial = at least two transfer_model calls and at least one "
+                       "mtime_check, %d toggling cache, %d deleting/renaming sources in use, %d in codegen mode (real C compiles); non-trivial = at least two transfer_model calls and at least one "
                        "edit/add/option/version change, distinct by (initial tree, options, op list)"
-                       % (n_dir, maxops + 1, n_core, n_lib, n_opt, n_noc))
+                       % (n_dir, maxops + 1, n_core, n_lib, n_opt, n_noc, n_del, n_cg))
     ctx.cov["samples"] = [cases[n_dir]["ops"][:8], cases[n_dir + n_core]["ops"][:8]]
     ctx.notes["input_distribution"] = {"ops": dist, "calls": seen, "histories": len(cases)}
+    ctx.notes["observations"] = {
+        "calls_served_stale_after_deleting_or_renaming_a_source_in_use": stale_after_delete,
+        "note": "deletion/rename is outside the property's letter and outside C20_fresh's hypotheses; the model mirrors "
+                "it (C20_delete_refuted) and the correspondence checks that it does"}
     ctx.assumptions += [
         "sources are abstracted to (path, mtime, content id) and the compiler to a free function of (visible sources, "
         "options, version); os.walk/fnmatch, pickle and CasADi serialisation are trusted; the AST probe checks that "
         "load_model and _compile_model walk the same folders with the same filter",
-        "C20_fresh assumes library_folders constant over the history (known finding) and mtime_check on (opt-out); "
-        "file deletion, edits concurrent with a compile, and writes that keep an mtime <= the cache file's are outside "
-        "the property's quantifier",
-        "codegen=True is in the model's routing but is not exercised by the correspondence (needs a C compiler run per model); "
-        "the library_os check is not modelled",
+        "C20_fresh assumes library_folders constant over the history (known finding), mtime_check on (opt-out) and no "
+        "deletion/rename of a source in the folders in use (outside the property's letter; observed, C20_delete_refuted); "
+        "edits concurrent with a compile and writes with an mtime earlier than the cache file's (clock going backwards) are "
+        "non-goals; an mtime equal to the cache file's is covered only under >= (C20_equal_mtime_refuted)",
+        "codegen mode is modelled (libraries + pointing cache file written together, library_os) and exercised with real C "
+        "compiles; a platform change is played by rewriting the cache file's library_os field (os.name cannot change in-process); "
+        "loading a shared library built for another platform is not exercised",
         "the child stamps the compiling version into the compiled model so that a cache surviving a version change is "
         "observable; cache-file mtimes are set with os.utime to the history's logical time",
     ]
